@@ -2,6 +2,7 @@
 from __future__ import annotations
 
 import contextlib
+import functools
 import itertools
 import os
 import posixpath
@@ -21,8 +22,10 @@ from translate import c18_guard, c18_ops
 MANIFEST = dict(
     technique='Rocq proof (POSIX join/normpath/abspath on character lists; soundness of every segment-wise guard form by '
               'induction on a guard language; data-flow model of every OS call of RawFileSystem/FileSystemChain incl. File '
-              'handles; os.walk as a Section variable) + two fail-closed ast translators (guard, operations) + exhaustive '
-              'vm_compute correspondence + operations-model correspondence against audit-hook observations + audit-hook oracle',
+              'handles; os.walk as a Section variable; memo tables and whole histories over several objects by induction) + '
+              'two fail-closed ast translators (guard by path conditions, operations by abstract interpretation with helper '
+              'inlining; wrapper and shared-state censuses) + exhaustive vm_compute correspondence + operations-model and '
+              'history-model correspondences against audit-hook observations + audit-hook oracle incl. histories',
     text='Theorems in Props/C18.v: for every guard expression accepted by the recogniser raise_sound (abs == root, '
          'startswith(root + sep) in four spellings, commonpath == root, closed under and/or/not), every working directory '
          '(also a different one at call time), root argument and path string, a path that RawFileSystem._resolve_path does '
@@ -43,8 +46,22 @@ MANIFEST = dict(
          'corner is exactly the parent (observation). normpath, _resolve_path and unify_path are compared with the model '
          'exhaustively over two segment alphabets (plain; backslash-carrying and non-ASCII look-alikes) by checksums '
          'computed inside the kernel VM; the operations model is compared with the accesses observed by an audit hook. '
-         'Real temporary trees (with literal backslash file names inside the root) are searched with every '
-         'open/stat/scandir observed, through strings, File handles and chains.',
+         'Histories (round 3): for any list of steps (a step = one access site of the generated table run by one of any '
+         'number of RawFileSystem objects, constrained or not, on arbitrary strings) with a memo table under any '
+         'entry-dropping replacement policy in front of _resolve_path whose key covers every step (it contains the '
+         'constrain flag, or all objects are constrained), the history equals the step-by-step model and every path a '
+         'constrained object hands to the OS is inside its root; a key without the flag (functools.lru_cache on the '
+         'method: FileSystem.__eq__/__hash__ ignore constrain_path) is refuted by the history "unconstrained object '
+         'resolves ../secret.txt, constrained object on the same folder is asked". That today\'s source has no such table '
+         'is an instance obligation over three censuses regenerated on every run: no decorator / rebinding / attribute '
+         'hook / subclass override on _resolve_path, on any method of File, FileSystem, RawFileSystem, FileSystemChain, '
+         'and no module-level or class-level mutable object, mutable parameter default or method-object state used by '
+         'those methods. The guard translator reads _resolve_path by path conditions (early returns, else branches, '
+         'renamed or aliased locals give the same guard); the constructor is read symbolically (locals, base '
+         'constructor). The history model is compared with the accesses observed step by step on two objects sharing a '
+         'folder. Real temporary trees (with literal backslash file names inside the root) are searched with every '
+         'open/stat/scandir observed, through strings, File handles, chains and after an unconstrained object on the '
+         'same folder has performed the same operations.',
     note='Trusted: Coq kernel + vm_compute, translate/c18_guard.py and translate/c18_ops.py, the hand model SM/PathNorm.v of '
          'CPython posixpath (tied by the exhaustive correspondence, POSIX only; Windows path semantics not covered) and the '
          'evaluation of path expressions SM/PathOps.v (tied by the operations correspondence), Adler-32 as the block '
@@ -55,7 +72,10 @@ MANIFEST = dict(
          'theorems hold for any stored string because every consumer re-validates. Escaping the *subfolder prefix* of a '
          'FileSystemChain member while staying inside the RawFileSystem root is counted, not reported (the property speaks '
          'about the root directory). unify_path("..") == ".." is an observation, carved out of the theorem. '
-         'constrain_path=False and assignments to fs.path / fs.constrain_path from outside the class are exempt.',
+         'constrain_path=False and assignments to fs.path / fs.constrain_path from outside the class are exempt. '
+         'The censuses are syntactic over filesys.py: state smuggled in through an object passed to the constructor, '
+         'through another module, or a table kept per object (harmless while the flag of an object is fixed) is not seen; '
+         'the history search on the implementation is the backstop.',
 )
 
 IMPORTS = ['SV.SM.PathNorm', 'SV.SM.PathNormEnum', 'SV.SM.PathOps', 'SV.SM.PathWalkRel', 'SV.SM.PathMemo', 'SV.SM.PathHistory', 'SV.Gen.Containment_gen', 'SV.Gen.FsOps_gen', 'SV.Props.C18', 'Coq.NArith.NArith',
@@ -480,6 +500,7 @@ def observe():
 
 
 def build_tree(base: Path) -> None:
+    _real.cache_clear()
     for rel in sorted(TREE):
         p = base / rel
         p.parent.mkdir(parents=True, exist_ok=True)
@@ -495,6 +516,7 @@ def make_fs(base: str, root_spec: str, chain_prefix, constrain: bool = True):
     return FileSystemChain((raw, chain_prefix)), raw
 
 
+@functools.lru_cache(maxsize=1 << 16)       # the tree does not change while it is searched
 def _real(p: str) -> str:
     """os.path.realpath; a broken filesystem may have wandered into /proc, where entries vanish while being resolved."""
     try:
@@ -554,6 +576,7 @@ def _sub_op(fs, sub: str, path: str, data: list, walk_limit: int, answers: list 
     return f'{n} files'
 
 
+@functools.lru_cache(maxsize=1)
 def _ignored_prefixes() -> tuple:
     """Files the interpreter itself opens (lazy imports) are not accesses of the filesystem under test."""
     from harness.common import REPO, VERIF
@@ -857,6 +880,18 @@ OPS_CASES = [  # (label, method of RawFileSystem, branch)
 KCODE = {'open': 1, 'os.walk': 2, 'os.stat': 3, 'os.lstat': 3}
 
 
+def _parse_option_list(v: str) -> list:
+    """`[Some [47; 116]; None; Some []]` (a Coq `list (option (list N))`) -> [str | None]."""
+    import re
+    out = []
+    for m in re.finditer(r'None|Some\s*\[([^\]]*)\]', v):
+        if m.group(0) == 'None':
+            out.append(None)
+        else:
+            out.append(''.join(chr(int(x.split('%')[0])) for x in m.group(1).split(';') if x.strip()))
+    return out
+
+
 def corr_ops(ck: Ck) -> None:
     """The data-flow model of the operations (Gen/FsOps_gen.v + peval) against what the implementation really hands to
     the OS: for (method, branch, argument, handle strings) the model lists (callee, path) of every access; the audit
@@ -882,36 +917,62 @@ def corr_ops(ck: Ck) -> None:
     observed = []
     old = os.getcwd()
     os.chdir(base)
+
+    def perform(fs, label, arg, hpath, data):
+        """One operation on one object; the (callee code, path) set the audit hook saw."""
+        h = File(fs, hpath, data)
+        with observe() as ev:
+            try:
+                if label == 'contains':
+                    arg in fs
+                elif label == 'lookup':
+                    fs[arg]
+                elif label == 'open_bin':
+                    fs.open_bin(arg).close()
+                elif label == 'open_str':
+                    fs.open_str(arg).close()
+                elif label == 'walk':
+                    for _f in fs.walk_folder(arg):
+                        break
+                elif label == 'handle_open_bin':
+                    fs.open_bin(h).close()
+                elif label == 'handle_open_str':
+                    fs.open_str(h).close()
+                else:
+                    fs._get_cache_key(h)
+            except (RootEscapeError, OSError, ValueError, UnicodeError):
+                pass
+        return sorted({(KCODE[k], p) for k, p in ev if k in KCODE})
+
+    # histories: two or three objects on the same folder (constrained and not), two to four steps; the names repeat between
+    # the steps of a history, so whatever an earlier step (of another object) left behind would be visible in a later one
+    hist_pool = ['../above.txt', '..\\above.txt', '../root_evil/secret.txt', 'in.txt', 'sub/../in.txt', '../rootx', '..',
+                 base + '/t/above.txt', 'sub\\..\\..\\above.txt', '', '../../top.txt', 'sub/deep.txt']
+    histories = []
+    for k in range(ck.budget(60, 400)):
+        name = hist_pool[k % len(hist_pool)]
+        steps = []
+        for j in range(rng.choice([2, 2, 3, 4])):
+            label, m, b = rng.choice(OPS_CASES)
+            con = (j % 2 == 1) if j < 2 else rng.random() < 0.5         # first an unconstrained object, then a constrained one
+            pick = lambda: name if rng.random() < 0.7 else rng.choice(hist_pool)
+            steps.append((con, label, m, b, pick(), pick(), pick()))
+        histories.append(steps)
+    hist_observed = []
     try:
         for label, m, b, arg, hpath, data in cases:
-            fs = RawFileSystem(root)
-            h = File(fs, hpath, data)
-            with observe() as ev:
-                try:
-                    if label == 'contains':
-                        arg in fs
-                    elif label == 'lookup':
-                        fs[arg]
-                    elif label == 'open_bin':
-                        fs.open_bin(arg).close()
-                    elif label == 'open_str':
-                        fs.open_str(arg).close()
-                    elif label == 'walk':
-                        for _f in fs.walk_folder(arg):
-                            break
-                    elif label == 'handle_open_bin':
-                        fs.open_bin(h).close()
-                    elif label == 'handle_open_str':
-                        fs.open_str(h).close()
-                    else:
-                        fs._get_cache_key(h)
-                except (RootEscapeError, OSError, ValueError, UnicodeError):
-                    pass
-            observed.append(sorted({(KCODE[k], p) for k, p in ev if k in KCODE}))
+            observed.append(perform(RawFileSystem(root), label, arg, hpath, data))
             ck.count('ops_model_cases')
             ck.hist('ops_model_case', f'{label}:{"access" if observed[-1] else "no-access"}')
             if observed[-1] and ('..' in arg + hpath + data or '\\' in arg + hpath + data):
                 ck.seen(('ops', label, arg, hpath, data))
+        for steps in histories:
+            objs = {True: RawFileSystem(root), False: RawFileSystem(root, constrain_path=False)}
+            hist_observed.append([perform(objs[con], label, arg, hpath, data) for con, label, m, b, arg, hpath, data in steps])
+            ck.count('history_model_steps', len(steps))
+            ck.hist('history_model_shape', ''.join('C' if st[0] else 'u' for st in steps))
+            if any(o and st[0] for o, st in zip(hist_observed[-1], steps)) and len({st[4] for st in steps}) < len(steps):
+                ck.seen(('hist', tuple((st[0], st[1], st[4]) for st in steps)))
     finally:
         os.chdir(old)
         shutil.rmtree(base_dir, ignore_errors=True)
@@ -922,9 +983,25 @@ def corr_ops(ck: Ck) -> None:
            'Definition predict (m b : string) (arg hpath data : str) : list (N * str) :=\n'
            '  map (fun x => (kcode (fst x), snd x)) (site_accesses raise_if o_cwd o_root '
            '{| i_arg := arg; i_data := data; i_hpath := hpath; i_prefix := []; i_walked := [] |} m b raw_sites).\n')
+    pre += ('Definition hstep (con : bool) (m b : string) (arg hpath data : str) : list opcall :=\n'
+            '  map (fun s => {| oc_root := o_root; oc_con := con; oc_site := s; oc_in := {| i_arg := arg; i_data := data; '
+            'i_hpath := hpath; i_prefix := []; i_walked := [] |} |})\n'
+            '      (filter (fun s => (String.eqb (st_method s) m && String.eqb (st_branch s) b)%bool) raw_sites).\n'
+            '(* today\'s source has no table in front of _resolve_path: the policy that keeps nothing *)\n'
+            'Definition hrun (ops : list opcall) : list (option str) := hist_run true raise_if o_cwd (fun _ => []) [] ops.\n')
     bad = []
     missing = set()
     chunks = [list(range(lo, min(lo + 150, len(cases)))) for lo in range(0, len(cases), 150)]
+    # sites per (method, branch), in table order, from the translator's side information (to split the flat answer)
+    table = {}
+    for m_, c_, b_, p_, _ln in ck.extra.get('translated', {}).get('FsOps_gen', {}).get('raw_sites', []):
+        table.setdefault((m_, b_), []).append(c_)
+
+    def hist_batch(lo):
+        exprs = ['hrun (' + ' ++ '.join(f'hstep {"true" if con else "false"} "{m}" "{b}" {coq_str(arg)} {coq_str(hp)} {coq_str(da)}'
+                                        for con, _l, m, b, arg, hp, da in steps) + ')' for steps in histories[lo:lo + 40]]
+        return coq_run(ck, f'hist{lo}', exprs, preamble=pre)
+    hist_los = list(range(0, len(histories), 40))
 
     def batch(idx):
         exprs = ['[' + '; '.join(f'predict "{cases[k][1]}" "{cases[k][2]}" {coq_str(cases[k][3])} {coq_str(cases[k][4])} '
@@ -932,7 +1009,9 @@ def corr_ops(ck: Ck) -> None:
                  '[' + '; '.join(f'has_method "{m}" "{b}" raw_sites' for _, m, b in OPS_CASES) + ']']
         return coq_run(ck, f'ops{idx[0]}', exprs, preamble=pre)
     with ThreadPoolExecutor(max_workers=6) as ex:
+        hist_futs = [ex.submit(hist_batch, lo) for lo in hist_los]
         outs = list(ex.map(batch, chunks))
+        hist_outs = [f.result() for f in hist_futs]
     for idx, vals in zip(chunks, outs):
         if vals is None:
             ck.obligation('correspondence:operations_model', False, 'model could not be evaluated')
@@ -960,6 +1039,41 @@ def corr_ops(ck: Ck) -> None:
         ck.tie_broken.append('correspondence operations model (SM/PathOps.v + Gen/FsOps_gen.v vs observed OS accesses)')
         ck.extra['ops_model_disagreements'] = bad[:5]
         DISAGREE.setdefault('ops', set()).update(b['method'] for b in bad)
+    # histories: hist_run (SM/PathHistory.v, no table) against the accesses of every step
+    hbad = []
+    heval_failed = False
+    for lo, vals in zip(hist_los, hist_outs):
+        if vals is None:
+            heval_failed = True
+            continue
+        for steps, obs, v in zip(histories[lo:lo + 40], hist_observed[lo:lo + 40], vals):
+            flat = _parse_option_list(v)
+            pos = 0
+            model_steps = []
+            for con, _l, m, b, *_ in steps:
+                callees = table.get((m, b), [])
+                part = flat[pos:pos + len(callees)]
+                pos += len(callees)
+                model_steps.append(sorted({(KCODE.get(c, 3), a) for c, a in zip(callees, part) if a is not None}))
+            if pos != len(flat) or any(not table.get((st[2], st[3])) for st in steps):
+                continue                          # a method of the history has no site table (renamed): nothing to compare
+            if model_steps != obs:
+                k = next(i for i, (x, y) in enumerate(zip(model_steps, obs)) if x != y)
+                hbad.append({'history': [{'constrained': st[0], 'op': st[1], 'arg': st[4].replace(base, '{BASE}'),
+                                          'handle_path': st[5].replace(base, '{BASE}'), 'handle_data': st[6].replace(base, '{BASE}')}
+                                         for st in steps], 'first_differing_step': k,
+                             'observed': [[c, p.replace(base, '{BASE}')] for c, p in obs[k]],
+                             'model': [[c, p.replace(base, '{BASE}')] for c, p in model_steps[k]]})
+    ck.obligation('correspondence:history_model', not hbad and not heval_failed,
+                  f'{len(histories)} histories ({ck.counts.get("history_model_steps", 0)} steps) over a constrained and an '
+                  f'unconstrained RawFileSystem on the same folder: hist_run (SM/PathHistory.v, no table in front of '
+                  f'_resolve_path) vs the accesses observed at every step: {len(hbad)} disagreements'
+                  + ('; model could not be evaluated' if heval_failed else '') + (f'; first: {hbad[0]}' if hbad else '')
+                  + f'; shapes (u = unconstrained, C = constrained step) {ck.distribution.get("history_model_shape")}')
+    if hbad or heval_failed:
+        ck.tie_broken.append('correspondence history model (SM/PathHistory.v vs observed OS accesses over several objects)')
+        ck.extra['history_model_disagreements'] = hbad[:5]
+        DISAGREE.setdefault('history', set()).update(st['op'] for h in hbad for st in h['history'])
     ck.sample({'operations_model_case': dict(zip(('op', 'method', 'branch', 'arg', 'handle_path', 'handle_data'), cases[2])),
                'observed_accesses': [[c, p.replace(base, '{BASE}')] for c, p in observed[2]]})
 
@@ -1024,15 +1138,21 @@ def run(ck: Ck) -> None:
                '_resolve_path under 6 roots; a block (function, prefix, separators, alphabet, length >= 2) is one distinct '
                'non-trivial case; plus raw random strings, non-trivial = contains ".." and longer than 2; plus the '
                'operations model: (method, branch, argument, handle path, handle data) cases compared with the '
-               'audit-hook observation, non-trivial = reached the OS and carries ".." or a backslash. Oracle: operations on real trees, distinct by (root configuration, chain '
+               'audit-hook observation, non-trivial = reached the OS and carries ".." or a backslash; plus histories of 2-4 '
+               'such steps over a constrained and an unconstrained object on one folder with repeating names, non-trivial = '
+               'a constrained step reached the OS and a name repeats. Oracle: operations on real trees, distinct by (root configuration, chain '
                'prefix, operation, path), non-trivial = the path contains "..", a backslash or is absolute and the '
-               'operation reached the file system, or it was rejected with RootEscapeError')
+               'operation reached the file system, or it was rejected with RootEscapeError; the history operation '
+               'after_loose asks a new constrained object after an unconstrained one on the same folder performed every plain '
+               'operation with the name (quick: corpus + every second targeted spelling + random)')
     ck.trusted.append('hand-written model SM/PathNorm.v of posixpath.join/normpath/abspath/commonpath and of _resolve_path / '
                       'unify_path (tied by exhaustive correspondence on every run); Adler-32 block comparison')
     ck.trusted.append('CPython audit events (open, os.scandir, os.listdir, os.walk) and a wrapper around os.stat/os.lstat as '
                       'the observation of which paths an operation touches')
     ck.trusted.append('translate/c18_ops.py (abstract interpretation of the RawFileSystem / FileSystemChain method bodies into '
-                      'path expressions) and their evaluation SM/PathOps.v peval, tied by the operations correspondence')
+                      'path expressions) and their evaluation SM/PathOps.v peval, tied by the operations correspondence; '
+                      'SM/PathHistory.v hist_run tied by the history correspondence; the wrapper / shared-state censuses of '
+                      'translate/c18_guard.py are syntactic over filesys.py')
     ck.assumptions.append('os.walk contract (hypothesis of c18_walk_found_inside, not checked): every dirpath is the top joined '
                           'with directory-entry names; entry names contain no separator and are not "", ".", ".."')
     ck.assumptions.append('File handles may carry any strings; fs.path / fs.constrain_path are not assigned from outside the class')
@@ -1124,6 +1244,8 @@ def run(ck: Ck) -> None:
     # concrete violation was exhibited (unify_path by an escaping pack path, _resolve_path by an observed escape).
     if DISAGREE.get('ops') and any(k.startswith(ESCAPE_KEYS) for k in keys):
         ck.explain('correspondence:operations_model')
+    if DISAGREE.get('history') and any(k.startswith(ESCAPE_KEYS) for k in keys):
+        ck.explain('correspondence:history_model')
     for stage, ob in (('exhaustive', 'correspondence:paths_exhaustive'), ('random', 'correspondence:paths_random')):
         fs = DISAGREE.get(stage, set())
         if fs and all(f == 'unify_path' and 'unify-path-escapes' in keys
